@@ -384,7 +384,7 @@ fn change_datum(extra: u64) -> Option<OutputDatum> {
     match extra { 1 => Some(OutputDatum::new_data_hash(&datum_hash())), 2 | 4 => Some(OutputDatum::new_data(&inline_datum())), _ => None }
 }
 
-struct OpRec { res: String, tape: Vec<(u8, Option<u64>)>, sel: Option<(bool, Vec<u64>)> }
+struct OpRec { res: String, tape: Vec<(u8, Option<u64>)>, sel: Option<(bool, Vec<u64>)>, attempts: usize }
 
 fn res_unit(r: Result<Result<(), JsError>, ()>) -> String { match r { Ok(Ok(())) => "ok".into(), Ok(Err(_)) => "err".into(), Err(()) => "panic".into() } }
 fn res_bool(r: Result<Result<bool, JsError>, ()>) -> String { match r { Ok(Ok(true)) => "t".into(), Ok(Ok(false)) => "f".into(), Ok(Err(_)) => "err".into(), Err(()) => "panic".into() } }
@@ -397,14 +397,14 @@ fn run_op(w: &mut World, op: &Op, last_tx: &mut Option<Transaction>) -> OpRec {
                 Some(u) => catch(|| { let o = u.output(); w.tb.add_regular_input(&o.address(), &u.input(), &o.amount()) }),
                 None => Ok(Err(JsError::from_str("no such utxo"))),
             };
-            OpRec { res: res_unit(r), tape: vec![], sel: None }
+            OpRec { res: res_unit(r), tape: vec![], sel: None, attempts: 0 }
         }
         Op::Out(a, e, v) => {
             note_addr(w, *a);
             let o = mk_output(*a, *e, &v.to_value());
             verif_oracle_start();
             let r = catch(|| w.tb.add_output(&o));
-            OpRec { res: res_unit(r), tape: verif_oracle_take(), sel: None }
+            OpRec { res: res_unit(r), tape: verif_oracle_take(), sel: None, attempts: 0 }
         }
         Op::Certs(cs) => {
             match cs {
@@ -415,7 +415,7 @@ fn run_op(w: &mut World, op: &Op, last_tx: &mut Option<Transaction>) -> OpRec {
                     w.tb.set_certs_builder(&b);
                 }
             }
-            OpRec { res: "ok".into(), tape: vec![], sel: None }
+            OpRec { res: "ok".into(), tape: vec![], sel: None, attempts: 0 }
         }
         Op::Wd(ws) => {
             match ws {
@@ -426,7 +426,7 @@ fn run_op(w: &mut World, op: &Op, last_tx: &mut Option<Transaction>) -> OpRec {
                     w.tb.set_withdrawals_builder(&b);
                 }
             }
-            OpRec { res: "ok".into(), tape: vec![], sel: None }
+            OpRec { res: "ok".into(), tape: vec![], sel: None, attempts: 0 }
         }
         Op::Props(ps) => {
             // there is no remove; ~ installs an empty builder?  No: ~ is never generated after a Some; it is a no-op here
@@ -435,7 +435,7 @@ fn run_op(w: &mut World, op: &Op, last_tx: &mut Option<Transaction>) -> OpRec {
                 for (i, d) in ps.iter().enumerate() { b.add(&mk_proposal(d, i as u64)).expect("proposal without script"); }
                 w.tb.set_voting_proposal_builder(&b);
             }
-            OpRec { res: "ok".into(), tape: vec![], sel: None }
+            OpRec { res: "ok".into(), tape: vec![], sel: None, attempts: 0 }
         }
         Op::Mint(ow, p, n, amt) => {
             let r = catch(|| -> Result<(), JsError> {
@@ -447,12 +447,12 @@ fn run_op(w: &mut World, op: &Op, last_tx: &mut Option<Transaction>) -> OpRec {
                 w.tb.set_mint_builder(&w.mint);
                 Ok(())
             });
-            OpRec { res: res_unit(r), tape: vec![], sel: None }
+            OpRec { res: res_unit(r), tape: vec![], sel: None, attempts: 0 }
         }
-        Op::Don(c) => { w.tb.set_donation(c); OpRec { res: "ok".into(), tape: vec![], sel: None } }
-        Op::Treas(c) => { let r = catch(|| w.tb.set_current_treasury_value(c)); OpRec { res: res_unit(r), tape: vec![], sel: None } }
-        Op::Fee(c) => { w.tb.set_fee(c); OpRec { res: "ok".into(), tape: vec![], sel: None } }
-        Op::MinFee(c) => { w.tb.set_min_fee(c); OpRec { res: "ok".into(), tape: vec![], sel: None } }
+        Op::Don(c) => { w.tb.set_donation(c); OpRec { res: "ok".into(), tape: vec![], sel: None, attempts: 0 } }
+        Op::Treas(c) => { let r = catch(|| w.tb.set_current_treasury_value(c)); OpRec { res: res_unit(r), tape: vec![], sel: None, attempts: 0 } }
+        Op::Fee(c) => { w.tb.set_fee(c); OpRec { res: "ok".into(), tape: vec![], sel: None, attempts: 0 } }
+        Op::MinFee(c) => { w.tb.set_min_fee(c); OpRec { res: "ok".into(), tape: vec![], sel: None, attempts: 0 } }
         Op::Change(a, e) => {
             note_addr(w, *a);
             let addr = address(*a);
@@ -462,7 +462,7 @@ fn run_op(w: &mut World, op: &Op, last_tx: &mut Option<Transaction>) -> OpRec {
                 None => w.tb.add_change_if_needed(&addr),
             });
             let tape = verif_oracle_take().into_iter().filter(|(s, _)| *s != b'C').collect();
-            OpRec { res: res_bool(r), tape, sel: None }
+            OpRec { res: res_bool(r), tape, sel: None, attempts: 0 }
         }
         Op::SelChange(st, a, e, ids) => {
             note_addr(w, *a);
@@ -490,14 +490,15 @@ fn run_op(w: &mut World, op: &Op, last_tx: &mut Option<Transaction>) -> OpRec {
             // answers before the first change attempt belong to the coin selection (C08's model), not to this model
             let from = all.iter().position(|(s, _)| *s == b'C').unwrap_or(all.len());
             let tape = all[from..].iter().cloned().filter(|(s, _)| *s != b'C').collect();
-            OpRec { res: res_bool(r), tape, sel: Some((sel_ok, added)) }
+            let attempts = all.iter().filter(|(s, _)| *s == b'C').count();
+            OpRec { res: res_bool(r), tape, sel: Some((sel_ok, added)), attempts }
         }
         Op::Build => {
             verif_oracle_start();
             let r = catch(|| w.tb.build_tx());
             let tape = verif_oracle_take();
             let res = match r { Ok(Ok(tx)) => { *last_tx = Some(tx); "ok".to_string() } Ok(Err(_)) => "err".into(), Err(()) => "panic".into() };
-            OpRec { res, tape, sel: None }
+            OpRec { res, tape, sel: None, attempts: 0 }
         }
     }
 }
@@ -608,7 +609,8 @@ fn exec_shape(sc: &Scenario) -> (String, String) {
         if balancing {
             let policy = match (&w.tb.get_fee_if_set(), sc.ops.iter().any(|o| matches!(o, Op::Fee(_))), sc.ops.iter().any(|o| matches!(o, Op::MinFee(_)))) {
                 (_, true, true) => "feeboth", (_, true, false) => "exactly", (_, false, true) => "notless", _ => "unspec" };
-            shape = Some(format!("{}/{}", shape_of(&w, &pre, &rec.res), policy));
+            let retry = if rec.attempts > 1 { "+retry" } else if rec.sel.as_ref().map(|s| !s.0).unwrap_or(false) { "+selerr" } else { "" };
+            shape = Some(format!("{}/{}{}", shape_of(&w, &pre, &rec.res), policy, retry));
         }
         recs.push(rec);
     }
@@ -797,7 +799,7 @@ fn main() {
         Some("gen") => {
             let mut out = Out::new(&args[2]);
             let mut r = Rng::new(seed_from_env());
-            let n = if is_thorough() { 40000 } else { 2400 };
+            let n = if is_thorough() { 100000 } else { 2400 };
             for k in 0..n {
                 let stream = match k % 12 { 0 | 1 => 0, 2 => 1, 3 | 4 => 2, 5 | 6 => 3, 7 | 8 => 4, 9 | 10 => 5, _ => 6 };
                 let mut sc = gen_scenario(&mut r, stream);
